@@ -10,7 +10,14 @@ path recorded at `_jump`; rows and per-interval counts against the Lean driver's
 path (exactly), and the time-argument normalisation (`time_arg` op).
 Direct oracle (no Lean): rows against a plain last-record-before lookup in the raw path, first row = initial
 state, one row per requested time, per-interval counts = number of firings of each transition with time in
-(g_k, g_k+1], consecutive rows differ by vMat . counts.
+(g_k, g_k+1], consecutive rows differ by vMat . counts.  Everything is compared with the harness's own copy of the
+initial state and of the grid, never with the objects handed to pygom.
+
+History and input form: `gridRows` / `addJumpsBetweenTime` are pure functions of (raw path, grid), the raw path a pure
+function of (configuration, x0, t0, draws); stoch_common.run_session probes on the real code that earlier calls, left-over
+configuration, the form / dtype of x0 and of the grid and other instances do not enter.
+Tau-leap rows are numpy's linear interpolation of the raw path: not part of the property's statement (which speaks about
+exact mode), compared with the harness's own interpolation as a correspondence item (a mismatch, not a violation).
 """
 import random
 
@@ -24,17 +31,29 @@ LEAN = {"module": "Pygom.Props.C15",
         "required": ["Pygom.C15.rows_count", "Pygom.C15.row_zero", "Pygom.C15.row_is_path_state",
                      "Pygom.C15.counts_are_per_transition", "Pygom.C15.rows_differ_by_vmat_counts",
                      "Pygom.C15.exact_counts_counterexample"]}
-BUDGET = {"quick": {"models": 300}, "thorough": {"models": 4000, "max_steps": 2000, "steps": [40, 150, 600, 1500]}}
-RULE = ("bounded-rate event models (shared generator), integer initial states, exact mode (plus 1 in 5 tau-leap runs for the "
-        "count histogram), 2 paths each; grids of 2-12 points starting at t0, uniform or random spacing, given as list, tuple or "
-        "array, horizons from half the expected run length to ten times it (grids extending past extinction, paths without "
-        "any event); one crafted case puts an event exactly on a grid point; a case is non-trivial when some interval "
-        "holds >= 2 events")
+BUDGET = {"quick": {"models": 300, "sessions": 160},
+          "thorough": {"models": 4000, "sessions": 1200, "max_steps": 2000, "steps": [40, 150, 600, 1500], "session_steps": [40, 150, 600]}}
+RULE = ("bounded-rate event models (shared generator), integer initial states handed over as int / int32 / float64 ndarray, list or "
+        "tuple of ints or floats, exact mode (plus 1 in 5 tau-leap runs: count histogram, one row per time, first row = x0, every row "
+        "between the bracketing records of the raw path), 2 paths each; grids of 2-12 points starting at t0 (some after t0), uniform, "
+        "random or integer-valued spacing, given as list, tuple or array of float or int dtype, horizons from half the expected run "
+        "length to ten times it (grids extending past extinction, paths without any event); one crafted case puts an event exactly "
+        "on a grid point; plus SESSIONS on one instance (3-5 calls: gridded and raw, exact and tau-leap, 1-3 paths, pre_tau / epsilon "
+        "left over, initial values re-assigned in another form or with other values, parameters changed and restored, a deep copy of the configured instance taking over, sibling instance in between, first call "
+        "repeated, last call repeated on a fresh instance, every returned array kept and compared again at the end, the caller's "
+        "x0 and grid objects unchanged - side effects the pure model excludes but the property does not state are tags and broken "
+        "correspondence, never violations); a case is non-trivial when some interval holds >= 2 events")
 ASSUMPTIONS = ["no event time coincides with an interior grid point (hypothesis of rows_differ_by_vmat_counts; probability zero for "
                "exponential waiting times; the crafted case reports what the code does there as an observation)",
                "the state-change matrix does not depend on the state (numeric magnitudes)",
                "the grid starts at the initial time and is increasing"]
 TRUSTED = ["harness generator and tracer (numpy.random / evaluator / _jump wrappers)", "Lean driver JSON codec"]
+
+
+def _forms(r, base, sim):
+    nS = len(base["x0"])
+    sim["x0_form"] = r.choice([f for f in SC.X0_FORMS if f != "scalar" or nS == 1])
+    sim["t0_form"] = r.choice(["np_f64"] * 6 + ["np_i64", "np_i64", "np_f32", "np_f32"])
 
 
 def make_cases(rng, tier, budget):
@@ -59,26 +78,40 @@ def make_cases(rng, tier, budget):
             g = sorted(set(g))
             if len(g) < 2:
                 g = [t0, t0 + 1.0]
-        c["sim"]["grid_kind"] = r.choice(["list", "tuple", "array"])
+        kind = r.choice(["list", "tuple", "array"])
         edge = r.random()
         if edge < 0.04:
-            g, c["sim"]["grid_kind"] = [g[-1]], "array"          # a one-element ARRAY is a one-point grid (a one-element list is a horizon)
+            g, kind = [g[-1]], "array"          # a one-element ARRAY is a one-point grid (a one-element list is a horizon)
         elif edge < 0.09 and len(g) >= 3:
             g = g[1:]                                             # grid starting after t0: first row is not x0 (outside row_zero)
-        c["sim"]["grid"] = g
+        elif edge < 0.30:
+            lo = int(np.ceil(t0)); hi = max(lo + 1, int(np.ceil(t0 + span)))    # integer-valued grid, handed over with an int dtype
+            g = [float(v) for v in sorted(set([lo, hi] + [r.randint(lo, hi) for _ in range(n - 2)]))]
+            kind = r.choice(["list_int", "tuple_int", "array_int"])
+        c["sim"]["time"] = {"kind": kind, "values": [float(v) for v in g]}
         c["sim"]["T"] = g[-1]
+        _forms(r, base, c["sim"])
         c["max_steps"] = budget.get("max_steps", SC.MAX_STEPS)
         cases.append(c)
+    n = 0
+    while n < budget.get("sessions", 0):
+        r = random.Random(rng.getrandbits(64))
+        base = SC.gen_sim_case(r, max_x0=25)
+        sib = SC.gen_sim_case(r, max_x0=25)
+        if base is None:
+            continue
+        c = dict(base)
+        c["sim"] = SC.sim_settings(r, base, r.choice(["exact", "exact", "tau_adaptive", "tau_fixed"]), steps=budget.get("session_steps", budget.get("steps")))
+        _forms(r, base, c["sim"])
+        c["session"] = SC.gen_session(r, base, c["sim"], grid_share=0.75, exact_share=0.65, sibling_base=sib)
+        c["max_steps"] = budget.get("max_steps", SC.MAX_STEPS)
+        cases.append(c)
+        n += 1
     return cases
 
 
 def search_cases(rng, tier, budget):
-    return make_cases(rng, tier, {"models": budget["models"] * 3, **{k: v for k, v in budget.items() if k != "models"}})
-
-
-def time_arg(sim):
-    g = sim["grid"]
-    return {"list": list(g), "tuple": tuple(g), "array": np.array(g, float)}[sim["grid_kind"]]
+    return make_cases(rng, tier, {**budget, "models": budget["models"] * 3, "sessions": budget.get("sessions", 0) * 3})
 
 
 def crafted(tags, mism, viol):
@@ -112,93 +145,143 @@ def run_case(case):
     if case.get("crafted"):
         crafted(tags, mism, viol)
         return {"nontrivial": False, "mismatches": mism, "violations": viol, "tags": tags}
-    spec, meta, sim = case["spec"], case["meta"], case["sim"]
-    exact = sim["mode"] == "exact"
-    model = SC.build_model(case)
+    spec, meta = case["spec"], case["meta"]
     nS, nE = len(meta["states"]), len(meta["procs"])
-    grid = [float(g) for g in sim["grid"]]
-    tags += ["mode:" + sim["mode"], "grid:" + sim["grid_kind"], "grid_points=%s" % (len(grid) if len(grid) < 4 else "4+"), "nS=%d" % nS, "nE=%d" % nE]
-    lr = SC.lean_lims(spec)
-    ta = leanio.driver().call({"op": "time_arg", "kind": sim["grid_kind"], "values": [SC.q(g) for g in grid]})
-    tr = SC.traced_run(model, time_arg(sim), exact, sim["np_seed"], iterations=2, max_steps=case.get("max_steps", SC.MAX_STEPS))
-    modek = "exact" if exact else "tau"
-    empty = [len(j["T"]) == 1 for j in tr.jumps]
-    if tr.error is not None and SC.unbounded_adaptive_tau(tr, sim):
-        return {"nontrivial": False, "mismatches": mism, "violations": viol, "tags": tags + ["raised:unbounded-adaptive-tau(C04 finding)"]}
-    if tr.error is not None:
-        kind = "empty_path" if any(empty) else "nonempty_path"
-        viol.append({"what": "solve_stochast(grid) raised %s: %s" % (type(tr.error).__name__, str(tr.error)[:200]),
-                     "signature": "C15:raise:%s:%s:%s" % (type(tr.error).__name__, modek, kind),
-                     "detail": "x0=%s grid=%s raw path lengths %s" % (case["x0"], grid, [len(j["T"]) for j in tr.jumps])})
-        return {"nontrivial": False, "mismatches": mism, "violations": viol, "tags": tags + ["raised:" + kind]}
-    Xg, Jg, Tg = tr.result
-    if ta.get("err") or ta.get("grid") is None or [SC.fr(v) for v in ta["grid"]] != [SC.fr(SC.q(g)) for g in grid] or not isinstance(Tg, np.ndarray):
-        mism.append({"what": "time_arg", "detail": "lean %s python returned %s" % (ta, type(Tg).__name__)})
-    elif not np.array_equal(np.asarray(Tg, float), np.array(grid)):
-        mism.append({"what": "time_arg:returned-times", "detail": "python returned %s for grid %s" % (np.asarray(Tg).tolist(), grid)})
-    x0 = np.array(case["x0"], float)
-    V = np.asarray(tr.evaluators["vMat"](x0, sim["t0"]), float).reshape(nS, nE)
-    nontrivial = False
-    for p in range(len(Xg)):
-        jr = tr.jumps[p]
-        X, T, J = jr["X"], jr["T"], jr["J"]
-        if J.ndim == 1:
-            J = J.reshape(0, nE)
-        if abs(jr["finalT"] - grid[-1]) > 0 or (not ta.get("err") and SC.fr(ta["final_t"]) != SC.fr(SC.q(grid[-1]))):
-            mism.append({"what": "time_arg:finalT", "detail": "_jump got %r, grid ends at %r, lean %s" % (jr["finalT"], grid[-1], ta.get("final_t"))})
-        rows = np.array(Xg[p], float); cnt = np.array(Jg[p], float)
-        if len(T) == 1: tags.append("path_without_events")
-        if T[-1] < grid[-1] and not jr["truncated"]: tags.append("grid_past_end_of_path")
-        if jr["truncated"]: tags.append("truncated")
-        # ---- model <-> code
-        r = leanio.driver().call({"op": "grid", "times": SC.qs(T), "states": [SC.qs(x) for x in X],
-                                  "counts": [[int(v) for v in row] for row in J.tolist()], "grid": [SC.q(g) for g in grid],
-                                  "n_trans": nE, "legacy": bool(SC.LEGACY_EXACT_COUNTS and exact)})
-        if exact and not (rows.shape == (len(grid), nS) and all(SC.same_vec(lrw, rw) for lrw, rw in zip(r["rows"], rows))):
-            mism.append({"what": "grid:rows", "detail": "lean %s python %s (raw T=%s)" % ([[float(SC.fr(v)) for v in w] for w in r["rows"]][:6], rows.tolist()[:6], T.tolist()[:8])})
-        lc = [[int(v) for v in row] for row in r["interval_counts"]]
-        if cnt.shape != (len(grid) - 1, nE) or lc != [[int(v) for v in row] for row in cnt.tolist()] or not np.all(np.mod(cnt, 1) == 0):
-            mism.append({"what": "grid:interval-counts", "detail": "lean %s python %s" % (lc[:6], cnt.tolist()[:6])})
-        # ---- direct oracle
+    tags += ["nS=%d" % nS, "nE=%d" % nE]
+    S = {"nontrivial": False}
+
+    def judge(call, model):
+        sim, exact, tr = call.sim, call.exact, call.tr
+        modek = "exact" if exact else "tau"
+        if not call.is_grid:
+            # a raw call inside a session (gridded then raw, raw then gridded): legality of raw paths is C04's; here only the
+            # session's own oracles (kept arrays, caller's objects, repeat, fresh instance) apply
+            tags.append("raw_call_in_session")
+            return tr.error is None
+        grid = call.grid
+        tags.extend(["mode:" + sim["mode"], "grid:" + call.ts["kind"], "grid_points=%s" % (len(grid) if len(grid) < 4 else "4+")])
+        ta = leanio.driver().call({"op": "time_arg", "kind": SC.lean_time_kind(call.ts), "values": [SC.q(g) for g in grid]})
+        empty = [len(j["T"]) == 1 for j in tr.jumps]
+        if tr.error is not None and SC.unbounded_adaptive_tau(tr, sim):
+            tags.append("raised:unbounded-adaptive-tau(C04 finding)")
+            return False
+        if tr.error is not None:
+            kind = "empty_path" if any(empty) else "nonempty_path"
+            viol.append({"what": "solve_stochast(grid) raised %s: %s" % (type(tr.error).__name__, str(tr.error)[:200]),
+                         "signature": "C15:raise:%s:%s:%s" % (type(tr.error).__name__, modek, kind),
+                         "detail": "x0=%s (%s) grid=%s (%s) raw path lengths %s, op %d" % (call.x0, sim["x0_form"], grid, call.ts["kind"], [len(j["T"]) for j in tr.jumps], call.index)})
+            tags.append("raised:" + kind)
+            return False
+        Xg, Jg, Tg = tr.result
+        if ta.get("err") or ta.get("grid") is None or [SC.fr(v) for v in ta["grid"]] != [SC.fr(SC.q(g)) for g in grid] or not isinstance(Tg, np.ndarray):
+            mism.append({"what": "time_arg", "detail": "lean %s python returned %s" % (ta, type(Tg).__name__)})
+        elif not np.array_equal(np.asarray(Tg, float), np.array(grid)):
+            mism.append({"what": "time_arg:returned-times", "detail": "python returned %s for grid %s" % (np.asarray(Tg).tolist(), grid)})
+        x0 = np.array(call.x0, float)                    # the harness's own copy, never the array handed to pygom
+        V = np.asarray(tr.evaluators["vMat"](x0, sim["t0"]), float).reshape(nS, nE)
         sig = lambda what: "C15:%s:%s" % (what, modek)
-        if rows.shape[0] != len(grid):
-            viol.append({"what": "not one row per requested time", "signature": sig("rows-count"), "detail": "%d rows for %d times" % (rows.shape[0], len(grid))})
-            continue
-        if grid[0] > sim["t0"]:
-            tags.append("grid_starts_after_t0")
-        elif not np.array_equal(rows[0], x0):
-            viol.append({"what": "first row is not the initial state", "signature": sig("row-zero"), "detail": "row0=%s x0=%s" % (rows[0].tolist(), x0.tolist())})
-        # numpy's bins are [g_k, g_k+1) (last one closed): an event exactly on a grid point other than the last is counted in
-        # the following interval.  Excluded by hypothesis (measure zero in exact mode; with a fixed tau it does happen)
-        on_grid = any(tt == g for tt in T[1:] for g in grid[:-1])
-        if on_grid: tags.append("event_on_grid_point")
-        # per-transition firings in (g_k, g_k+1]
-        ref = np.zeros((len(grid) - 1, nE))
-        per_int = SC.events_per_interval(T, grid)
-        for s_i, tt in enumerate(T[1:]):
-            for k in range(len(grid) - 1):
-                if grid[k] < tt <= grid[k + 1]:
-                    ref[k] += J[s_i]
-        if exact:
-            look = SC.raw_lookup(X, T, grid)
-            if not np.array_equal(rows, look):
-                k = int(np.argmax(np.any(rows != look, axis=1)))
-                viol.append({"what": "row k is not the state of the underlying path at time t_k", "signature": sig("row-lookup"),
-                             "detail": "row %d (t=%r) = %s, path state %s" % (k, grid[k], rows[k].tolist(), look[k].tolist())})
-            if max(per_int + [0]) >= 2: nontrivial = True
-            if not on_grid:
-                if cnt.shape != ref.shape or not np.array_equal(cnt, ref):
-                    k = int(np.argmax(np.any(cnt != ref, axis=1))) if cnt.shape == ref.shape else 0
-                    viol.append({"what": "per-interval counts are not the per-transition event counts of the interval", "signature": sig("interval-counts"),
-                                 "detail": "interval %d (%r, %r]: reported %s, events of the path %s" % (k, grid[k], grid[k + 1], cnt[k].tolist() if cnt.shape == ref.shape else cnt.shape, ref[k].tolist())})
-                if cnt.shape == ref.shape and not all(np.array_equal(rows[k + 1] - rows[k], V.dot(cnt[k])) for k in range(len(grid) - 1)):
-                    k = [np.array_equal(rows[k + 1] - rows[k], V.dot(cnt[k])) for k in range(len(grid) - 1)].index(False)
-                    viol.append({"what": "consecutive rows do not differ by vMat . counts", "signature": sig("rows-differ"),
-                                 "detail": "interval %d: rows %s -> %s, counts %s, V.counts %s" % (k, rows[k].tolist(), rows[k + 1].tolist(), cnt[k].tolist(), V.dot(cnt[k]).tolist())})
+        here = " [call at op %d, x0 handed over as %s, grid as %s]" % (call.index, sim["x0_form"], call.ts["kind"])
+        if len(Xg) != sim["iterations"]:
+            viol.append({"what": "not one gridded path per requested iteration", "signature": sig("paths-count"),
+                         "detail": "%d paths for %d iterations" % (len(Xg), sim["iterations"]) + here})
+            return False
+        for p in range(len(Xg)):
+            jr = tr.jumps[p]
+            X, T, J = jr["X"], jr["T"], jr["J"]
+            if J.ndim == 1:
+                J = J.reshape(0, nE)
+            if abs(jr["finalT"] - grid[-1]) > 0 or (not ta.get("err") and SC.fr(ta["final_t"]) != SC.fr(SC.q(grid[-1]))):
+                mism.append({"what": "time_arg:finalT", "detail": "_jump got %r, grid ends at %r, lean %s" % (jr["finalT"], grid[-1], ta.get("final_t"))})
+            rows = np.array(Xg[p], float); cnt = np.array(Jg[p], float)
+            if len(T) == 1: tags.append("path_without_events")
+            if T[-1] < grid[-1] and not jr["truncated"]: tags.append("grid_past_end_of_path")
+            if jr["truncated"]: tags.append("truncated")
+            # ---- model <-> code
+            r = leanio.driver().call({"op": "grid", "times": SC.qs(T), "states": [SC.qs(x) for x in X],
+                                      "counts": [[int(v) for v in row] for row in J.tolist()], "grid": [SC.q(g) for g in grid],
+                                      "n_trans": nE, "legacy": bool(SC.LEGACY_EXACT_COUNTS and exact)})
+            if exact and not (rows.shape == (len(grid), nS) and all(SC.same_vec(lrw, rw) for lrw, rw in zip(r["rows"], rows))):
+                mism.append({"what": "grid:rows", "detail": "lean %s python %s (raw T=%s)" % ([[float(SC.fr(v)) for v in w] for w in r["rows"]][:6], rows.tolist()[:6], T.tolist()[:8])})
+            lc = [[int(v) for v in row] for row in r["interval_counts"]]
+            if cnt.shape != (len(grid) - 1, nE) or lc != [[int(v) for v in row] for row in cnt.tolist()] or not np.all(np.mod(cnt, 1) == 0):
+                mism.append({"what": "grid:interval-counts", "detail": "lean %s python %s" % (lc[:6], cnt.tolist()[:6])})
+            # ---- direct oracle
+            if rows.ndim != 2 or rows.shape[0] != len(grid) or rows.shape[1] != nS:
+                viol.append({"what": "not one row per requested time", "signature": sig("rows-count"),
+                             "detail": "rows of shape %s for %d times, %d states" % (rows.shape, len(grid), nS) + here})
+                continue
+            if grid[0] > sim["t0"]:
+                pass    # tagged by the session runner: the first row is then not x0 (outside row_zero)
+            elif not np.array_equal(rows[0], x0):
+                viol.append({"what": "first row is not the initial state", "signature": sig("row-zero"),
+                             "detail": "path %d: row0=%s x0=%s" % (p, rows[0].tolist(), x0.tolist()) + here})
+            # numpy's bins are [g_k, g_k+1) (last one closed): an event exactly on a grid point other than the last is counted in
+            # the following interval.  Excluded by hypothesis (measure zero in exact mode; with a fixed tau it does happen)
+            on_grid = any(tt == g for tt in T[1:] for g in grid[:-1])
+            if on_grid: tags.append("event_on_grid_point")
+            # per-transition firings in (g_k, g_k+1]
+            ref = np.zeros((len(grid) - 1, nE))
+            per_int = SC.events_per_interval(T, grid)
+            for s_i, tt in enumerate(T[1:]):
+                for k in range(len(grid) - 1):
+                    if grid[k] < tt <= grid[k + 1]:
+                        ref[k] += J[s_i]
+            if exact:
+                look = SC.raw_lookup(X, T, grid)
+                if not np.array_equal(rows, look):
+                    k = int(np.argmax(np.any(rows != look, axis=1)))
+                    viol.append({"what": "row k is not the state of the underlying path at time t_k", "signature": sig("row-lookup"),
+                                 "detail": "row %d (t=%r) = %s, path state %s" % (k, grid[k], rows[k].tolist(), look[k].tolist()) + here})
+                if max(per_int + [0]) >= 2: S["nontrivial"] = True
+                if not on_grid:
+                    if cnt.shape != ref.shape or not np.array_equal(cnt, ref):
+                        k = int(np.argmax(np.any(cnt != ref, axis=1))) if cnt.shape == ref.shape else 0
+                        viol.append({"what": "per-interval counts are not the per-transition event counts of the interval", "signature": sig("interval-counts"),
+                                     "detail": "interval %d (%r, %r]: reported %s, events of the path %s" % (k, grid[k], grid[min(k + 1, len(grid) - 1)], cnt[k].tolist() if cnt.shape == ref.shape else cnt.shape, ref[k].tolist() if len(ref) else []) + here})
+                    if cnt.shape == ref.shape and not all(np.array_equal(rows[k + 1] - rows[k], V.dot(cnt[k])) for k in range(len(grid) - 1)):
+                        k = [np.array_equal(rows[k + 1] - rows[k], V.dot(cnt[k])) for k in range(len(grid) - 1)].index(False)
+                        viol.append({"what": "consecutive rows do not differ by vMat . counts", "signature": sig("rows-differ"),
+                                     "detail": "interval %d: rows %s -> %s, counts %s, V.counts %s" % (k, rows[k].tolist(), rows[k + 1].tolist(), cnt[k].tolist(), V.dot(cnt[k]).tolist()) + here})
+            else:
+                if max(per_int + [0]) >= 1: S["nontrivial"] = True
+                if not on_grid and (cnt.shape != ref.shape or not np.array_equal(cnt, ref)):
+                    viol.append({"what": "per-interval counts are not the per-transition event counts of the interval (tau-leap)", "signature": sig("interval-counts"),
+                                 "detail": "reported %s, events of the path %s" % (cnt.tolist()[:5], ref.tolist()[:5]) + here})
+                # tau-leap rows: whatever is meant by "the value at t_k" of a path recorded at leap ends (previous record, next
+                # record, anything in between), it lies between the two records that bracket t_k, component by component
+                lo_r, hi_r, interp = tau_brackets(X, T, grid)
+                tol = 1e-9 * (1.0 + np.abs(X).max())
+                if len(T) > 1 and not np.all(np.diff(T) > 0):
+                    # recorded times that repeat (known finding C04-tau-below-ulp): interpolation at a repeated time is ambiguous
+                    tags.append("path_with_repeated_times(C04 finding)")
+                elif np.any(rows < lo_r - tol) or np.any(rows > hi_r + tol):
+                    k = int(np.argmax(np.any((rows < lo_r - tol) | (rows > hi_r + tol), axis=1)))
+                    viol.append({"what": "a gridded tau-leap row is not between the records of the underlying path that bracket its time", "signature": sig("row-bracket"),
+                                 "detail": "row %d (t=%r) = %s, bracketing records min %s max %s" % (k, grid[k], rows[k].tolist(), lo_r[k].tolist(), hi_r[k].tolist()) + here})
+                elif not np.allclose(rows, interp, rtol=1e-9, atol=tol):
+                    k = int(np.argmax(np.any(~np.isclose(rows, interp, rtol=1e-9, atol=tol), axis=1)))
+                    mism.append({"what": "grid:tau-rows-not-linear-interpolation",
+                                 "detail": "row %d (t=%r) = %s, linear interpolation of the raw path (harness reference) %s" % (k, grid[k], rows[k].tolist(), interp[k].tolist()) + here})
+        return True
+
+    SC.run_session(case, judge, "C15", tags, mism, viol, max_steps=case.get("max_steps", SC.MAX_STEPS))
+    return {"nontrivial": S["nontrivial"], "mismatches": mism, "violations": viol, "tags": tags,
+            "sample": {"spec": spec, "x0": case["x0"], "params": case["params"], "sim": case["sim"], "session": case.get("session")}}
+
+
+def tau_brackets(X, T, grid):
+    """per grid time: componentwise min and max of the two raw records that bracket it (the first / last record outside the
+    recorded range), and the linear interpolation between them - plain loops, independent of numpy.interp"""
+    lo, hi, mid = [], [], []
+    n = len(T)
+    for g in grid:
+        if g <= T[0]:
+            a = b = 0; w = 0.0
+        elif g >= T[-1]:
+            a = b = n - 1; w = 0.0
         else:
-            if max(per_int + [0]) >= 1: nontrivial = True
-            if not on_grid and (cnt.shape != ref.shape or not np.array_equal(cnt, ref)):
-                viol.append({"what": "per-interval counts are not the per-transition event counts of the interval (tau-leap)", "signature": sig("interval-counts"),
-                             "detail": "reported %s, events of the path %s" % (cnt.tolist()[:5], ref.tolist()[:5])})
-    return {"nontrivial": nontrivial, "mismatches": mism, "violations": viol, "tags": tags,
-            "sample": {"spec": spec, "x0": case["x0"], "params": case["params"], "sim": sim}}
+            b = next(i for i in range(n) if T[i] >= g)
+            a = b - 1
+            w = (g - T[a]) / (T[b] - T[a])
+        lo.append(np.minimum(X[a], X[b])); hi.append(np.maximum(X[a], X[b])); mid.append(X[a] + (X[b] - X[a]) * w)
+    return np.array(lo, float), np.array(hi, float), np.array(mid, float)
